@@ -50,6 +50,7 @@ type Knobs struct {
 	NoFlusher       bool          // the handler's ResponseWriter is not an http.Flusher (a wrapping middleware hides it)
 	ArriveLag       time.Duration // the request reaches the handler this much (fake clock) after Do sent it
 	H1LateClose     bool          // HTTP/1.1 over TLS: on cancellation the server hears of it before the client's socket is closed (see runWatcher)
+	OpaqueDoErr     bool          // the HTTPClient reports failures in its own words, without wrapping the cause
 	H1LateCloseSlow bool          // ... and the socket\'s close is slow in coming
 	H1Close         bool          // HTTP/1.1: the server closes the connection when request bytes keep coming after its answer (see runPump)
 	UpScript        []int         // scripted read sizes (enumeration worlds); nil: use UpFrag
@@ -361,6 +362,16 @@ func urlErr(req *http.Request, err error) error {
 	return &url.Error{Op: "Post", URL: req.URL.String(), Err: err}
 }
 
+// ctxDoErr is the error Do returns because the context ended. With the
+// OpaqueDoErr knob the HTTPClient is a middleware that reports failures in its
+// own words (formatted with %v): the cause is in the text, not in the chain.
+func (c *Call) ctxDoErr(req *http.Request, err error) error {
+	if c.K.OpaqueDoErr {
+		return fmt.Errorf("upstream request failed: %v", urlErr(req, err))
+	}
+	return urlErr(req, err)
+}
+
 // Do runs on the library's request goroutine.
 func (n *Net) Do(req *http.Request) (*http.Response, error) {
 	c := CallOf(req.Context())
@@ -375,7 +386,7 @@ func (n *Net) Do(req *http.Request) (*http.Response, error) {
 	}
 	if err := req.Context().Err(); err != nil {
 		closeBody(req)
-		return nil, urlErr(req, err)
+		return nil, c.ctxDoErr(req, err)
 	}
 	if c.K.DoErr != nil {
 		closeBody(req)
@@ -401,6 +412,9 @@ func (n *Net) Do(req *http.Request) (*http.Response, error) {
 			err = cerr
 		}
 		e.abortLocked(err)
+		if cerr != nil {
+			return nil, c.ctxDoErr(req, err)
+		}
 		return nil, urlErr(req, err)
 	}
 	if !e.committed {
@@ -413,6 +427,9 @@ func (n *Net) Do(req *http.Request) (*http.Response, error) {
 			err = errors.New("simhttp: exchange ended without response")
 		}
 		e.abortLocked(err)
+		if req.Context().Err() != nil {
+			return nil, c.ctxDoErr(req, err)
+		}
 		return nil, urlErr(req, err)
 	}
 	major, minor, proto := 1, 1, "HTTP/1.1"
